@@ -35,14 +35,23 @@ func histProbe() {
 		},
 		OnBlock: func(i int, height int64, resp *abci.ResponseFinalizeBlock) {
 			for k, r := range resp.TxResults {
-				if r.Code != 0 && i < 130 {
+				if r.Code != 0 && i > 295 {
 					fmt.Println("blk", i, "tx", k, "code", r.Code, r.Log[:min(len(r.Log), 150)])
 				}
 			}
 		},
 		BeforeBlock: func(i int, r *hist.Run) {
 			run = r
-			if i == 8 || i == 62 || i == 66 || i == 70 {
+			if i == 299 || i == 301 || i == 303 || i == 306 {
+				ctx0 := r.W.App.NewUncachedContext(false, r.W.Root.BlockHeader())
+				for _, sub := range []string{"validators-balances", "reference-block"} {
+					for _, m := range r.W.Queue(ctx0, "evm/"+hist.Ref+"/"+sub) {
+						cm, _ := m.ConsensusMsg(r.W.App.AppCodec())
+						fmt.Printf("  blk %d %s msg %d sigs=%d ev=%d %v\n", i, sub, m.GetId(), len(m.GetSignData()), len(m.GetEvidence()), cm)
+					}
+				}
+			}
+			if false {
 				ctx := r.W.App.NewUncachedContext(false, r.W.Root.BlockHeader())
 				for _, m := range r.W.Queue(ctx, world.TurnstoneQueue(hist.Ref)) {
 					cm, _ := m.ConsensusMsg(r.W.App.AppCodec())
